@@ -614,6 +614,12 @@ pub fn vx_panic_site(w: &mut World) -> !
 pub trait VxDrop: Sized {
     spec fn drop_eff(&self, w0: World, w1: World) -> bool;
 }
+/// Option's drop glue: drops the payload if there is one
+impl<X: VxDrop> VxDrop for Option<X> {
+    open spec fn drop_eff(&self, w0: World, w1: World) -> bool {
+        match self { Some(x) => x.drop_eff(w0, w1), None => w1 == w0 }
+    }
+}
 #[verifier::external_body]
 pub fn drop<X: VxDrop>(x: X, w: &mut World)
     ensures x.drop_eff(*old(w), *final(w)),
@@ -828,6 +834,14 @@ pub assume_specification[ Duration::as_nanos ](d: &Duration) -> (r: u128)
     ensures r as nat == dur_nanos(*d);
 pub assume_specification[ Duration::from_nanos ](n: u64) -> (r: Duration)
     ensures dur_nanos(r) == n as nat;
+pub assume_specification[ Duration::as_millis ](d: &Duration) -> (r: u128)
+    ensures r as nat == dur_nanos(*d) / 1_000_000;
+pub assume_specification[ Duration::as_micros ](d: &Duration) -> (r: u128)
+    ensures r as nat == dur_nanos(*d) / 1_000;
+pub assume_specification[ Duration::as_secs ](d: &Duration) -> (r: u64)
+    ensures r as nat == dur_nanos(*d) / 1_000_000_000;
+pub assume_specification[ Duration::is_zero ](d: &Duration) -> (r: bool)
+    ensures r == (dur_nanos(*d) == 0);
 #[verifier::external_body]
 pub fn vx_min_u128(a: u128, b: u128) -> (r: u128) ensures r == (if a <= b { a } else { b }) { if a <= b { a } else { b } }
 #[verifier::external_body]
